@@ -126,6 +126,22 @@ CLAIMED = {
              "re-inversion in vacuum returns the permeances of a permeance-built curve. The permeate-pressure round trip is genuinely violated (known finding K2, semantic fingerprint).",
         note=TB + "get_partial_pressures by contract; self-consistent permeate, non-negative permeances and non-zero driving forces are hypotheses of the statement",
         technique="contracts on the constructor hook; eager element-wise comprehension semantics; ring normal form / z3; fingerprinted known finding"),
+    'C06': dict(
+        level='proof', ref='DESIGN.md 3/C06',
+        text="Bottom-up relabelling lemmas: activity coefficients and partial pressures of the real functions on the relabelled mixture (parameters exchanged, p -> 1-p, both bases, "
+             "NRTL one/two alphas; UNIQUAC = known finding K1 with fingerprints); the flux solver by lock-step self-composition over its loop (invariant y_b = 1-y_a, d_b = d_a, "
+             "partial-pressure swap lemma applied by rewriting) in 3 modes x given/default permeances; the step recurrences of both ideal process models (fluxes exchanged, mass, "
+             "temperature and both heats equal, fractions mirrored) using the solver swap lemma; separation factor and ideal selectivity invert.",
+        note=TB + "callee swap lemmas are proved from the callee bodies in the same check and applied by rewriting once their argument relation is discharged; ideal curves are element-wise solver calls (C08)",
+        technique="relational verification: lock-step self-composition + lemma rewriting over contracts; ring normal form / z3"),
+    'C07': dict(
+        level='proof', ref='DESIGN.md 3/C07',
+        text="Basis lemmas bottom-up: gamma and partial pressures (bodies, both models), flux solver (lock-step over the loop with the partial-pressure basis lemma), "
+             "permeate-composition and separation-factor helpers, all four process models and the non-ideal curve (molar vs equivalent mass initial feed: identical prefix and "
+             "identical step recurrence, hence identical trajectories; compositions reported as mass fractions), curve separation factor / PSI and the measurement points "
+             "extracted for fitting (element-wise on curves of symbolic length, molar vs mass feed points).",
+        note=TB + "fitted coefficients compared through their inputs (identical find_best_fit application / identical measurement points); repaired by fix commits 56213d2, c90f218, bbb5fa0",
+        technique="relational verification over contracts (two runs with x_molar = to_molar(w)); lock-step; ring normal form / z3"),
 }
 
 NOT_YET = "check under construction (see DESIGN.md section 7); not claimed until every obligation is in place"
